@@ -28,7 +28,7 @@ Proof.
   pose proof (evals_run_hop cfg sp orc h (w_core w) (i_typed _ _ _ I) (i_unlocked _ _ _ I)) as EV.
   destruct (EV (clear_log w) eq_refl) as [E1 E2].
   unfold model_step. destruct (run_hop no_faults cfg sp orc h (clear_log w)) as [r w'] eqn:ER.
-  cbn [fst snd] in *. unfold spec_state. cbn [ob_res ob_st ob_cached ob_probe fst snd].
+  cbn [fst snd] in *. unfold spec_state, spec_success. cbn [ob_res ob_st ob_cached ob_probe fst snd].
   set (c := w_core w) in *. set (c' := w_core w') in *.
   assert (Hst : w_st w' = k_st c') by reflexivity. rewrite Hst.
   (* facts available when the step reports success *)
